@@ -39,6 +39,9 @@ COMMITS_BLANK = [
     ("0123456789abcdef", "A U Thor", "2020-01-01 00:00:00 +0000"),
     ("                ", "Old Timer", "2001-02-03 04:05:06 +0100"),
     ("fedcba9876543210", "B", "2019-12-31 23:59:59 -0330"),
+    # (a blame can have several boundary commits: lines with a blank hash column and another author or time
+    # belong to another commit)
+    ("                ", "Ann Cient", "1999-09-09 09:09:09 +0000"),
 ]
 # a renamed-file column whose name contains " (" (see known_findings.json)
 COMMITS_PAREN = [
@@ -292,7 +295,7 @@ def main(tier):
         tasks.append(("K=%d,P=%d,hyperlinks" % (K, len(P)), K, P, "default", {"hyperlinks": True}))
         tasks.append(("K=%d,P=%d,width=30" % (K, len(P)), K, P, "default", {"width": "30"}))
         tasks.append(("K=3,P=%d,padded-file-column" % len(P), 3, P, "default", {}))
-        tasks.append(("K=3,P=%d,blank-boundary" % len(P), 3, P, "default", {}))
+        tasks.append(("K=4,P=%d,blank-boundary" % len(P), 4, P, "default", {}))
     tasks.append(("K=2,P=3,paren-file-column", 2, [127, 128, 129], "default", {}))
     # palettes whose colours are distinct but are painted alike in 256-colour mode (a shipped theme has such a palette)
     for tc in ("never", "always"):
